@@ -30,7 +30,7 @@ import (
 const (
 	horizonPolls = 60   // H: polls allowed after the abort / cancel call returned
 	quantum      = 12   // consecutive polls before a thread must yield (fair scheduling)
-	maxPoints    = 3000 // hard cap of one execution
+	maxPoints    = 6000 // hard cap of one execution
 )
 
 func init() {
@@ -233,6 +233,33 @@ func scenarios(thorough bool) []*scenario {
 				},
 			})
 		}
+	}
+	// reuse of call frames: the first run is aborted while nested calls are inside try statements; the second run
+	// throws at the same call depths and must be caught where its own handlers say
+	for _, depth := range []int{1, 2} {
+		depth := depth
+		s1 := "g := func() { for {} }\nf := func() { try { g() } catch e { return 1 } finally { } }\n"
+		if depth == 2 {
+			s1 += "f0 := func() { try { f() } finally { } }\nf0()\n"
+		} else {
+			s1 += "f()\n"
+		}
+		s2 := "zero := 0\nh := func() { return 1 / zero }\nk := func() { return [h()] }\nk0 := func() { return [k()] }\ntry { k0() } catch e { return 7 }\nreturn 0\n"
+		bc1, bc2 := compile(s1), compile(s2)
+		out = append(out, &scenario{
+			key:  fmt.Sprintf("reuse-frames try depth=%d", depth),
+			desc: "T1 vm.Run(nested calls inside try, innermost spins); vm.SetBytecode(s2).Run(error thrown 3 calls deep, caught by main) || T2 vm.Abort()",
+			nonterm: []bool{true, false}, want: []int64{-1, 7},
+			body: func() {
+				vm := ugo.NewVM(bc1)
+				vsched.Go("run", func() {
+					runVM(vm, 0, nil)
+					vm.SetBytecode(bc2)
+					runVM(vm, 1, nil)
+				})
+				vsched.Go("abort", aborter(vm, 1))
+			},
+		})
 	}
 	// clear: Abort concurrent with Clear and a second run on the same bytecode
 	{
@@ -713,6 +740,10 @@ func (s *scenario) judge(e *vsched.Exec) (class, what, outcome string, nontrivia
 					}
 				}
 			}
+			if !s.nonterm[k] && e.Cut {
+				n, _ := pollsAfter(e, r.call, -1)
+				return "no-return", fmt.Sprintf("run %d of a script that ends by itself has not returned after %d polls", k+1, n), "", nontrivial
+			}
 			outs = append(outs, "runs on")
 			break
 		}
@@ -776,8 +807,30 @@ func stopFn(e *vsched.Exec) bool {
 		}
 	}
 	n, w := pollsAfter(e, lastRet, -1)
-	return overdue(n-2, w-2)
+	if !overdue(n-2, w-2) {
+		return false
+	}
+	// a run of a script that ends by itself is given 20 times as long before the execution is cut (being cut then
+	// means that it does not end)
+	if cur := curScenario; cur != nil {
+		calls, rets := 0, 0
+		for _, ev := range e.Events {
+			if ev.Kind == vsched.KNote && ev.Label == "run-call" {
+				calls++
+			}
+			if ev.Kind == vsched.KNote && ev.Label == "run-ret" {
+				rets++
+			}
+		}
+		if calls > rets && calls-1 < len(cur.nonterm) && !cur.nonterm[calls-1] {
+			return n >= 20*horizonPolls
+		}
+	}
+	return true
 }
+
+// curScenario is the scenario being explored (read by stopFn).
+var curScenario *scenario
 
 func run09(c *fw.Ctx) {
 	bound := 2
@@ -834,6 +887,8 @@ type failure struct {
 }
 
 func explore(c *fw.Ctx, s *scenario, cfg vsched.Config, bound int) {
+	curScenario = s
+	defer func() { curScenario = nil }()
 	// determinism self-check: the default schedule twice
 	e1 := vsched.Run(cfg, nil, s.body)
 	e2 := vsched.Run(cfg, e1.Choices(), s.body)
